@@ -25,9 +25,37 @@ def clampf(value, low, high):
     return low if value < low else (high if value > high else value)
 
 
+def twin(num):
+    """The same number as the other kind of Python number, where one exists that compares equal
+    (3 <-> 3.0, 2^53 + 2 <-> 9007199254740994.0): equal for ==, for hash() and hence for any
+    cache - and not the same once a tolerance is added to it."""
+    if isinstance(num, bool):
+        return num
+    try:
+        if isinstance(num, int) and float(num) == num:
+            return float(num)
+        if isinstance(num, float) and num.is_integer():
+            return int(num)
+    except (OverflowError, ValueError):
+        pass
+    return num
+
+
+def _twin_calls(plot_utils, value, low, high, tol):
+    """The calls under test made first with every argument replaced by its twin (an earlier,
+    unrelated request with equal-looking numbers); outcomes are not judged here."""
+    try:
+        plot_utils.checkLimits(twin(value), twin(low), twin(high))
+        plot_utils.constrainLimits(twin(value), twin(low), twin(high))
+        plot_utils.checkLimitsTol(twin(value), twin(low), twin(high), twin(tol))
+    except Exception:                       # pylint: disable=broad-except
+        pass
+
+
 def check_scalar(value, low, high, tol):
     plot_utils = _lib()
     out = []
+    _twin_calls(plot_utils, value, low, high, tol)
     v_f, l_f, h_f, t_f = F(value), F(low), F(high), F(tol)
     want = clampf(v_f, l_f, h_f)
     outside = v_f < l_f or v_f > h_f
@@ -60,6 +88,13 @@ def check_scalar(value, low, high, tol):
 def check_point(point, bounds, tol):
     plot_utils = _lib()
     (x_lo, y_lo), (x_hi, y_hi) = bounds
+    try:
+        # an earlier request with equal-looking numbers of the other kind (floats for ints, ints
+        # for whole floats), bounds and tolerance alike, the point at one corner
+        plot_utils.point_in_bounds([twin(x_hi), twin(y_lo)],
+                                   [[twin(x_lo), twin(y_lo)], [twin(x_hi), twin(y_hi)]], twin(tol))
+    except Exception:                       # pylint: disable=broad-except
+        pass
     try:
         got = plot_utils.point_in_bounds(list(point), [[x_lo, y_lo], [x_hi, y_hi]], tol)
         # the caller keeps one bounds object and edits it in place when the travel limits
